@@ -254,3 +254,13 @@ type fileInt int64
 // AllocatesFromFileCount violates R2.12: the size comes straight from a parsed integer. (The rule keys on the
 // module's core.Int type; this example is matched through the shared suffix test on the type name.)
 func AllocatesFromFileCount(n fileInt) []int { return make([]int, int(n)) }
+
+// ClampsByOtherLength violates R2.13: upper can be shorter than data.
+func ClampsByOtherLength(data []byte) string {
+	upper := strings.ToUpper(string(data))
+	n := 8
+	if len(data) < n {
+		n = len(data)
+	}
+	return upper[:n]
+}
